@@ -67,6 +67,46 @@ def relevant(rec_props, pid):
     return (not rec_props) or pid in rec_props or any(q in rec_props for q in PROP_INCLUDES.get(pid, ()))
 
 
+# names too common to tell a callee by (a method call `.name(` does not say which type's method it is)
+COMMON_METHOD_NAMES = {"new", "from", "get", "len", "clone", "default", "insert", "remove", "iter", "next", "first", "last", "push",
+                       "pop", "into", "as_slice", "to_vec", "to_bytes", "from_bytes", "contains", "is_empty", "start", "end", "height"}
+
+
+def propagate_props(records, gen_src):
+    """A function carries the properties of every extracted function that calls it (transitively): main_chain_height (C02, C07,
+    C14) calls get_main_chain_length, which calls main_chain_length_by_difficulty(_inner) — a change of the callee that breaks its
+    contract is a violation of every property that reaches it. Callees are recognised by name in the caller's rendered text:
+    free functions by `name(` / `path::name(`, methods by `.name(` or `Type::name(`, except for very common method names."""
+    if not gen_src:
+        return
+    lines = gen_src.split("\n")
+    fns = [rec for rec in records if rec.get("fn_name") and rec.get("gen_lines")]
+    body = {}
+    for rec in fns:
+        a, b = rec["gen_lines"]
+        body[id(rec)] = "\n".join(lines[a - 1:b])
+    changed = True
+    rounds = 0
+    while changed and rounds < 20:
+        changed = False
+        rounds += 1
+        for callee in fns:
+            nm = callee["fn_name"]
+            is_method = bool(callee.get("container"))
+            if is_method and nm in COMMON_METHOD_NAMES:
+                continue
+            rx = re.compile((r"(?:\.|::)%s\s*(?:::<[^>]*>)?\(" if is_method else r"(?<![\w.])(?:\w+::)*%s\s*\(") % re.escape(nm))
+            for caller in fns:
+                if caller is callee or not caller["props"]:
+                    continue
+                extra = [p_ for p_ in caller["props"] if p_ not in callee["props"]]
+                if not extra:
+                    continue
+                if rx.search(body[id(caller)]):
+                    callee["props"] = callee["props"] + extra
+                    changed = True
+
+
 def main():
     ap = argparse.ArgumentParser()
     ap.add_argument("prop")
@@ -126,6 +166,7 @@ def main():
                 rec_by_fn.setdefault(rec["fn_name"], []).append(rec)
             for fnm in rec.get("fn_names", []) or []:
                 rec_by_fn.setdefault(fnm, []).append(rec)
+        propagate_props(r.get("records", []), r.get("gen_src", ""))
         canary_info[unit] = r.get("canary", {})
         if r["status"] == "undecided" and not r.get("functions"):
             undecided.append("verus unit %s: %s" % (unit, "; ".join(r["tool_errors"])))
